@@ -286,3 +286,25 @@ func (c *Ctx) paramSources(v ssa.Value, depth int) []ssa.Value {
 	}
 	return out
 }
+
+// callsMetaWriter: the call's static callee is, or statically reaches, a catalog writer.
+func (c *Ctx) callsMetaWriter(call ssa.CallInstruction) bool {
+	g := staticCallee(call)
+	if g == nil {
+		return false
+	}
+	g = c.declared(g)
+	if !c.IsLib(g) {
+		return false
+	}
+	r := c.Roles()
+	if r.isMetaWriter(g) {
+		return true
+	}
+	for f := range c.staticReach(g) {
+		if r.isMetaWriter(f) {
+			return true
+		}
+	}
+	return false
+}
